@@ -444,6 +444,10 @@ def find_slice_cursor_loops(fn):
     return out
 
 
+_CMP_COMPLEMENT = {"Eq": "Ne", "Ne": "Eq", "Lt": "Ge", "Ge": "Lt", "Le": "Gt", "Gt": "Le"}
+_CMP_SWAP = {"Eq": "Eq", "Ne": "Ne", "Lt": "Gt", "Gt": "Lt", "Le": "Ge", "Ge": "Le"}
+
+
 class Engine:
     _next_frame = [0]
 
@@ -825,6 +829,14 @@ class Engine:
             return v[1]
         if v in path.assume:
             return path.assume[v]
+        if v[0] == "binop" and len(v) == 4 and v[1] in _CMP_COMPLEMENT:
+            # the same comparison asked the other way round: `a != b` known false answers `a == b`, `a < b` answers `a >= b`,
+            # `b > a`, `b <= a`
+            op, a_, b_ = v[1], v[2], v[3]
+            for o2, x_, y_, flip in ((_CMP_COMPLEMENT[op], a_, b_, True), (_CMP_SWAP[op], b_, a_, False), (_CMP_COMPLEMENT[_CMP_SWAP[op]], b_, a_, True)):
+                r = path.assume.get(("binop", o2, x_, y_))
+                if isinstance(r, bool):
+                    return (not r) if flip else r
         if v[0] == "not":
             r = self.decide(path, v[1])
             return None if r is None else (not r)
